@@ -204,6 +204,21 @@ def extract(src_dir=None):
         lens[c] = ls
     out["ff_fixed"] = ff
     out["lengths"] = lens
+
+    # NAME / BINARY of the object serializers (text/binary flag reported by Serializer.serialize)
+    sb = []
+    for n in ast.walk(st):
+        if isinstance(n, ast.ClassDef) and n.name.endswith("ObjectSerializer"):
+            try:
+                name, binary = _const_assign(n, "NAME"), _const_assign(n, "BINARY")
+            except ValueError:
+                continue
+            if type(name) is not str or type(binary) is not bool:
+                raise ValueError(f"{n.name}: NAME/BINARY are not literals")
+            sb.append((name, binary))
+    if not any(nm == "json" for nm, _ in sb):
+        raise ValueError("JsonObjectSerializer NAME/BINARY not found")
+    out["serializer_binary"] = sb
     return out
 
 
@@ -240,6 +255,10 @@ def render(d):
     for c in CLASSES:
         if c in d["ff_fixed"]:
             L.append(f"def ffFixed_{c} : Bool := {'true' if d['ff_fixed'][c] else 'false'}")
+    L.append("")
+    L.append("/-- object serializer NAME ↦ its BINARY class attribute (what `Serializer.serialize` reports as is_binary) -/")
+    L.append("def serializerBinary : List (List Char × Bool) := [" + ", ".join(
+        "(%s, %s)" % (lean_str(nm), "true" if b else "false") for nm, b in d["serializer_binary"]) + "]")
     L.append("")
     L.append("/-- per class: admissible `len(wmsg)` as written in `parse` -/")
     L.append("def lengths : List (List Char × List Nat) := [")
